@@ -1,6 +1,5 @@
 (* C03 for the response parser: HttpResp.rfeed (= HttpResponseParser.feed_data, lax mode) does not
-   depend on how the byte stream is cut into reads - up to the one place where the lax CR skipping
-   looks at the read boundary.  Well-formedness invariant, fuel sufficiency, the two-read splitting
+   depend on how the byte stream is cut into reads.  Well-formedness invariant, fuel sufficiency, the two-read splitting
    theorem and its lifting to arbitrary segmentations.  Mirrors Proofs/HttpSeg.v. *)
 From Coq Require Import ZifyBool ZifyN.
 From AV Require Import Lib.Base Lib.BytesX Generated.HttpGen Generated.HttpRespGen Model.Http Model.HttpResp
@@ -47,7 +46,7 @@ Definition rstep_f (cfg : rcfg) (se : rfcfg) (buf : bytes) : (rfcfg * bytes) + r
             if rshould_close s then inr (s, evs, OErr EBadMessage) else
             let line := rstrip_cr raw in
             let limit := match rlines s with [] => max_line lim | _ => max_field lim end in
-            if limit <? lenN line then inr (s, evs, OErr ELineTooLong) else
+            if limit <? len1 raw then inr (s, evs, OErr ELineTooLong) else
             let ls := rlines s ++ [line] in
             if max_headers lim <? lenN ls then inr (s, evs, OErr EBadMessage) else
             match line with
@@ -63,7 +62,7 @@ Definition rstep_f (cfg : rcfg) (se : rfcfg) (buf : bytes) : (rfcfg * bytes) + r
           end
         | None =>
           let limit := match rlines s with [] => max_line lim | _ => max_field lim end in
-          if limit <? lenN buf then inr (s, evs, OErr ELineTooLong)
+          if limit <? len1 buf then inr (s, evs, OErr ELineTooLong)
           else inr (mkRS (rlines s) buf None (rupgraded s) (rpending_upgrade s) (rshould_close s) (rin_flight s),
                     evs, OOk [])
         end
@@ -180,25 +179,11 @@ Definition rwf (s : rst) : Prop :=
 Definition rtail_ok (lim : limits) (s : rst) : bool :=
   match rpayload s with Some p => negb (rtoo_long lim p) | None => true end.
 
-(* the read did not end right after an optional CR following chunk data (the one place where the lax
-   parser's CR skipping depends on the read boundary) *)
-Definition rclean_st (s : rst) : bool :=
-  match rpayload s with Some p => rclean p | None => true end.
-
-(* ... or it did, and the bytes y that follow are read the same way as without the boundary
-   (Proofs/HttpRespChunk.v, resume_c): after the optional CR that followed chunk data y does not start
-   with CR *)
-Definition rresume_st (s : rst) (y : bytes) : bool :=
-  match rpayload s with
-  | Some p => match y with [] => true | _ => rresume_ok p y end
-  | None => true
-  end.
-
-Lemma rclean_resume_st s y : rclean_st s = true -> rresume_st s y = true.
-Proof.
-  unfold rclean_st, rresume_st. destruct (rpayload s) as [p|]; [|reflexivity].
-  intro H. destruct y; [reflexivity|]. now apply rclean_resume.
-Qed.
+(* ... or it does not pass, but the line it belongs to is completed by the bytes y that follow: the
+   re-check is monotone (a complete line is measured like a partial one), so the one-read run raises
+   the same LineTooLong.  What remains excluded is only the early rejection of a line that is too
+   long and still incomplete after y. *)
+Definition rrecheck_ok (lim : limits) (s : rst) (y : bytes) : bool := rtail_ok lim s || has_byte 10 y.
 
 Definition rprepend (lo : bytes) (r : routcome) : routcome :=
   match r with OOk l => OOk (lo ++ l) | _ => r end.
@@ -240,8 +225,8 @@ Lemma rfstop_ok cfg s evs x s1 acc1 lo1 :
   rinv_f (s, evs) ->
   rstep_f cfg (s, evs) x = inr (s1, acc1, OOk lo1) ->
   rwf s1 /\
-  (rtail_ok (c_lim cfg) s1 = true ->
-   forall y, rresume_st s1 y = true -> forall f, (meas rmu_f (s, evs) (x ++ y) < f)%nat ->
+  (forall y, rrecheck_ok (c_lim cfg) s1 y = true ->
+   forall f, (meas rmu_f (s, evs) (x ++ y) < f)%nat ->
      robs (rfloop cfg f (s, evs) (x ++ y)) =
      robs (let '(s2, a2, r) := rfeed cfg s1 y acc1 in (s2, a2, rprepend lo1 r))).
 Proof.
@@ -250,7 +235,7 @@ Proof.
   { (* buffer exhausted *)
     cbn [rstep_f] in H. inversion H; subst. clear H. split.
     - split; [intro Hn; now elim Hn|assumption].
-    - intros _ y _ f Hf. rewrite robs_prepend_nil. rewrite rfeed_floop, Ht, (rclr_id _ Ht). cbn [app].
+    - intros y _ f Hf. rewrite robs_prepend_nil. rewrite rfeed_floop, Ht, (rclr_id _ Ht). cbn [app].
       f_equal. apply rfloop_fuel; [split; assumption|assumption|apply rmeas_f_fuel]. }
   cbn [rstep_f] in H. unfold rpwf in Hp.
   destruct (rpayload s) as [p|] eqn:Ep.
@@ -261,8 +246,9 @@ Proof.
     destruct (rfeed_payload_need _ _ _ _ _ _ Hp E) as (Hwp' & Hmt & Hres).
     split.
     + split; [intro Hn; now elim Hn|]. unfold rpwf. cbn [rpayload]. assumption.
-    + unfold rtail_ok, rresume_st. cbn [rpayload]. intros Hok y Hcl f Hf.
-      apply negb_true_iff in Hok. specialize (Hres Hok).
+    + unfold rrecheck_ok, rtail_ok. cbn [rpayload]. intros y Hok f Hf.
+      assert (Hok' : rtoo_long (c_lim cfg) p' = false \/ has_byte 10 y = true)
+        by (apply orb_true_iff in Hok as [A|A]; [left; now apply negb_true_iff|right; exact A]).
       rewrite robs_prepend_nil. rewrite rfeed_floop. unfold rclr. cbn [rtail rlines rpayload rupgraded rpending_upgrade rshould_close rin_flight].
       rewrite Ht. cbn [app].
       destruct y as [|b y].
@@ -271,7 +257,7 @@ Proof.
       * destruct f as [|f]; [lia|].
         replace (2 * length (b :: y) + 2)%nat with (S (2 * length (b :: y) + 1)) by lia.
         unfold rfloop. cbn [loop]. cbn [rstep_f app rpayload]. rewrite Ep.
-        specialize (Hres (b :: y) Hcl). cbn [app] in Hres. rewrite Hres.
+        specialize (Hres (b :: y) Hok'). cbn [app] in Hres. rewrite Hres.
         destruct (rfeed_payload (c_lim cfg) p' (b :: y) acc1) as [p'' e2|rest e2|e e2] eqn:E2.
         -- destruct s; cbn in *; subst; reflexivity.
         -- cbn [rlines rtail rupgraded rpending_upgrade rshould_close rin_flight]. rewrite Ht.
@@ -285,7 +271,7 @@ Proof.
     { (* upgraded connection: everything is handed back *)
       inversion H; subst. clear H. split.
       - split; [intro Hn; now elim Hn|]. unfold rpwf. rewrite Ep. exact I.
-      - intros _ y _ f Hf. rewrite rfeed_floop, Ht, (rclr_id _ Ht). cbn [app].
+      - intros y _ f Hf. rewrite rfeed_floop, Ht, (rclr_id _ Ht). cbn [app].
         destruct f as [|f]; [lia|]. unfold rfloop. cbn [loop]. cbn [rstep_f app]. rewrite Ep, Eu.
         destruct y as [|b y]; cbn [loop length Nat.mul Nat.add rstep_f]; [reflexivity|].
         replace (length y + S (length y + 0) + 2)%nat with (S (length y + S (length y + 0) + 1)) by lia.
@@ -294,7 +280,7 @@ Proof.
     { (* message queue full: the whole buffer is kept *)
       inversion H; subst. clear H. split.
       - split; [intros _; split; reflexivity|exact I].
-      - intros _ y _ f Hf. rewrite robs_prepend_nil. rewrite rfeed_floop. unfold rclr.
+      - intros y _ f Hf. rewrite robs_prepend_nil. rewrite rfeed_floop. unfold rclr.
         cbn [rtail rlines rpayload rupgraded rpending_upgrade rshould_close rin_flight].
         destruct f as [|f]; [lia|].
         replace (2 * length ((a :: r) ++ y) + 2)%nat with (S (2 * length ((a :: r) ++ y) + 1)) by lia.
@@ -305,7 +291,7 @@ Proof.
     (* partial line kept *)
     dmH H; [discriminate|]. inversion H; subst. clear H. split.
     + split; [intros _; split; reflexivity|exact I].
-    + intros _ y _ f Hf. rewrite robs_prepend_nil. rewrite rfeed_floop. unfold rclr.
+    + intros y _ f Hf. rewrite robs_prepend_nil. rewrite rfeed_floop. unfold rclr.
       cbn [rtail rlines rpayload rupgraded rpending_upgrade rshould_close rin_flight].
       assert (Hs : mkRS (rlines s) [] None false (rpending_upgrade s) (rshould_close s) (rin_flight s) = s)
         by (destruct s; cbn in *; subst; reflexivity).
@@ -380,28 +366,28 @@ Qed.
 Theorem rfeed_split cfg s a b acc s1 acc1 lo1 :
   rwf s ->
   rfeed cfg s a acc = (s1, acc1, OOk lo1) ->
-  rtail_ok (c_lim cfg) s1 = true -> rresume_st s1 b = true ->
+  rrecheck_ok (c_lim cfg) s1 b = true ->
   robs (rfeed cfg s (a ++ b) acc) =
   robs (let '(s2, acc2, r) := rfeed cfg s1 b acc1 in (s2, acc2, rprepend lo1 r)).
 Proof.
-  intros Hw H Hok Hcl. destruct (rfeed_stop cfg s a acc Hw) as (sk & ek & xk & E & Hi & Hs).
+  intros Hw H Hok. destruct (rfeed_stop cfg s a acc Hw) as (sk & ek & xk & E & Hi & Hs).
   rewrite H in Hs. destruct (rfstop_ok _ _ _ _ _ _ _ Hi Hs) as [_ Hres].
   rewrite (rfeed_floop cfg s (a ++ b)). rewrite app_assoc. unfold rfloop.
   rewrite (loop_app _ _ (rstep_f cfg) rfdflt rmu_f rinv_f (rstep_f_dec cfg) (rstep_f_stable cfg)
              _ _ _ b _ (S (meas rmu_f (sk, ek) (xk ++ b))) (rinv_f_clr s acc Hw) (rmeas_f_fuel _ _)
              (rmeas_f_fuel _ _) _ _ E ltac:(lia)).
-  apply (Hres Hok b Hcl (S (meas rmu_f (sk, ek) (xk ++ b)))). lia.
+  apply (Hres b Hok (S (meas rmu_f (sk, ek) (xk ++ b)))). lia.
 Qed.
 
 Theorem rfeed_split_accept cfg s a b acc s1 acc1 lo1 s2 acc2 lo2 :
   rwf s ->
   rfeed cfg s a acc = (s1, acc1, OOk lo1) ->
-  rresume_st s1 b = true ->
   rfeed cfg s1 b acc1 = (s2, acc2, OOk lo2) ->
   rfeed cfg s (a ++ b) acc = (s2, acc2, OOk (lo1 ++ lo2)).
 Proof.
-  intros Hw H1 Hcl H2. destruct (rtail_ok (c_lim cfg) s1) eqn:Hok.
-  - pose proof (rfeed_split cfg s a b acc s1 acc1 lo1 Hw H1 Hok Hcl) as H. rewrite H2 in H.
+  intros Hw H1 H2. destruct (rtail_ok (c_lim cfg) s1) eqn:Hok.
+  - assert (Hok2 : rrecheck_ok (c_lim cfg) s1 b = true) by (unfold rrecheck_ok; rewrite Hok; reflexivity).
+    pose proof (rfeed_split cfg s a b acc s1 acc1 lo1 Hw H1 Hok2) as H. rewrite H2 in H.
     destruct (rfeed cfg s (a ++ b) acc) as [[s' a'] r']. cbn in H.
     destruct r'; inversion H; subst; reflexivity.
   - pose proof (rfeed_wf _ _ _ _ _ _ _ Hw H1) as [Hw1 _].
@@ -426,72 +412,36 @@ Lemma rrun_segs_cons cfg s d segs a lo :
   end.
 Proof. reflexivity. Qed.
 
-(* at every read boundary that is followed by another read, the rest of the stream is read the same
-   way as without the boundary (rresume_st) *)
-Fixpoint rboundaries_safe (cfg : rcfg) (s : rst) (segs : list bytes) (a : racc) : bool :=
-  match segs with
-  | [] => true
-  | d :: segs' =>
-    match rfeed cfg s d a with
-    | (s', a', OOk _) =>
-      match segs' with [] => true | _ => rresume_st s' (concat segs') && rboundaries_safe cfg s' segs' a' end
-    | _ => true
-    end
-  end.
-
-(* in particular when every boundary state is clean *)
-Fixpoint rboundaries_clean (cfg : rcfg) (s : rst) (segs : list bytes) (a : racc) : bool :=
-  match segs with
-  | [] => true
-  | d :: segs' =>
-    match rfeed cfg s d a with
-    | (s', a', OOk _) =>
-      match segs' with [] => true | _ => rclean_st s' && rboundaries_clean cfg s' segs' a' end
-    | _ => true
-    end
-  end.
-
-Lemma rboundaries_clean_safe cfg : forall segs s a,
-  rboundaries_clean cfg s segs a = true -> rboundaries_safe cfg s segs a = true.
-Proof.
-  induction segs as [|d segs IH]; intros s a H; [reflexivity|].
-  cbn [rboundaries_clean rboundaries_safe] in *.
-  destruct (rfeed cfg s d a) as [[s1 a1] r1]. destruct r1; [|reflexivity].
-  destruct segs as [|e segs]; [reflexivity|].
-  apply andb_true_iff in H as [A B]. apply andb_true_iff. split; [now apply rclean_resume_st|now apply IH].
-Qed.
-
 Lemma rrun_segs_accept_cons : forall segs cfg s d acc lo s' acc' lo',
-  rwf s -> rboundaries_safe cfg s (d :: segs) acc = true ->
+  rwf s ->
   rrun_segs cfg s (d :: segs) acc lo = (s', acc', OOk lo') ->
   rwf s' /\ rrun_segs cfg s [d ++ concat segs] acc lo = (s', acc', OOk lo').
 Proof.
-  induction segs as [|e segs IH]; intros cfg s d acc lo s' acc' lo' Hw Hb H.
+  induction segs as [|e segs IH]; intros cfg s d acc lo s' acc' lo' Hw H.
   - cbn [concat]. rewrite app_nil_r. split; [|exact H].
     rewrite rrun_segs_cons in H. destruct (rfeed cfg s d acc) as [[s1 a1] r1] eqn:E1.
     destruct r1; try discriminate. cbn [rrun_segs] in H. inversion H; subst.
     eapply rfeed_wf; eassumption.
-  - rewrite rrun_segs_cons in H. cbn [rboundaries_safe] in Hb.
+  - rewrite rrun_segs_cons in H.
     destruct (rfeed cfg s d acc) as [[s1 a1] r1] eqn:E1.
     destruct r1 as [l1|]; try discriminate.
-    apply andb_true_iff in Hb as [Hcl Hb]. cbn [concat] in Hcl.
     pose proof (rfeed_wf _ _ _ _ _ _ _ Hw E1) as Hw1.
-    destruct (IH cfg s1 e a1 (lo ++ l1) s' acc' lo' Hw1 Hb H) as [Hw' H'].
+    destruct (IH cfg s1 e a1 (lo ++ l1) s' acc' lo' Hw1 H) as [Hw' H'].
     split; [assumption|].
     rewrite rrun_segs_cons in H'. destruct (rfeed cfg s1 (e ++ concat segs) a1) as [[s2 a2] r2] eqn:E2.
     destruct r2 as [l2|]; try discriminate. cbn [rrun_segs] in H'. inversion H'; subst.
     cbn [concat]. rewrite rrun_segs_cons.
-    rewrite (rfeed_split_accept _ _ _ _ _ _ _ _ _ _ _ Hw E1 Hcl E2). cbn [rrun_segs].
+    rewrite (rfeed_split_accept _ _ _ _ _ _ _ _ _ _ _ Hw E1 E2). cbn [rrun_segs].
     rewrite app_assoc. reflexivity.
 Qed.
 
 Theorem rseg_accept cfg segs s acc lo s' acc' lo' :
-  rwf s -> segs <> [] -> rboundaries_safe cfg s segs acc = true ->
+  rwf s -> segs <> [] ->
   rrun_segs cfg s segs acc lo = (s', acc', OOk lo') ->
   rrun_segs cfg s [concat segs] acc lo = (s', acc', OOk lo').
 Proof.
-  intros Hw Hn Hb H. destruct segs as [|d segs]; [congruence|].
-  cbn [concat]. exact (proj2 (rrun_segs_accept_cons _ _ _ _ _ _ _ _ _ Hw Hb H)).
+  intros Hw Hn H. destruct segs as [|d segs]; [congruence|].
+  cbn [concat]. exact (proj2 (rrun_segs_accept_cons _ _ _ _ _ _ _ _ _ Hw H)).
 Qed.
 
 Lemma rrun_segs_wf_cons : forall segs cfg s d acc lo s' acc' lo',
@@ -512,28 +462,27 @@ Proof.
   - eapply rrun_segs_wf_cons; eassumption.
 Qed.
 
-(* two accepted segmentations of the same stream with safe boundaries are indistinguishable *)
+(* two accepted segmentations of the same stream are indistinguishable *)
 Theorem rseg_indep_accept cfg segs1 segs2 s acc lo s1 acc1 lo1 s2 acc2 lo2 :
   rwf s -> segs1 <> [] -> segs2 <> [] -> concat segs1 = concat segs2 ->
-  rboundaries_safe cfg s segs1 acc = true -> rboundaries_safe cfg s segs2 acc = true ->
   rrun_segs cfg s segs1 acc lo = (s1, acc1, OOk lo1) ->
   rrun_segs cfg s segs2 acc lo = (s2, acc2, OOk lo2) ->
   (s1, acc1, lo1) = (s2, acc2, lo2).
 Proof.
-  intros Hw N1 N2 Hc B1 B2 H1 H2.
-  apply (rseg_accept _ _ _ _ _ _ _ _ Hw N1 B1) in H1.
-  apply (rseg_accept _ _ _ _ _ _ _ _ Hw N2 B2) in H2.
+  intros Hw N1 N2 Hc H1 H2.
+  apply (rseg_accept _ _ _ _ _ _ _ _ Hw N1) in H1.
+  apply (rseg_accept _ _ _ _ _ _ _ _ Hw N2) in H2.
   rewrite Hc in H1. rewrite H1 in H2. inversion H2; subst. reflexivity.
 Qed.
 
-(* one-read rejection implies rejection of every segmentation with safe boundaries *)
+(* one-read rejection implies rejection of every segmentation *)
 Theorem rseg_oneshot_reject cfg segs s acc lo s1 acc1 e :
-  rwf s -> segs <> [] -> rboundaries_safe cfg s segs acc = true ->
+  rwf s -> segs <> [] ->
   rrun_segs cfg s [concat segs] acc lo = (s1, acc1, OErr e) ->
   forall s2 acc2 r2, rrun_segs cfg s segs acc lo = (s2, acc2, r2) -> forall l, r2 <> OOk l.
 Proof.
-  intros Hw Hn Hb H1 s2 acc2 r2 H2 l ->.
-  rewrite (rseg_accept _ _ _ _ _ _ _ _ Hw Hn Hb H2) in H1. discriminate.
+  intros Hw Hn H1 s2 acc2 r2 H2 l ->.
+  rewrite (rseg_accept _ _ _ _ _ _ _ _ Hw Hn H2) in H1. discriminate.
 Qed.
 
 (* the invariant in plain words *)
@@ -544,7 +493,7 @@ Lemma rwf_spelled s : rwf s ->
     | RLength rem => 0 < rem /\ rctail p = [] /\ rtlines p = []
     | RUntilEof => rctail p = [] /\ rtlines p = []
     | RChunked (RData rem) => 0 < rem /\ rctail p = []
-    | RChunked (RDataEnd _) => rctail p = []
+    | RChunked RDataEnd => rctail p = [] \/ rctail p = [13]
     | RChunked _ => has_byte 10 (rctail p) = false
     end.
 Proof.
@@ -568,8 +517,8 @@ Fixpoint rconsumed (cfg : rcfg) (s : rst) (segs : list bytes) (a : racc) : list 
     end
   end.
 
-(* at every read boundary followed by a read: the buffered chunk line passes the length re-check and
-   the bytes consumed after it are read the same way as without the boundary *)
+(* at every read boundary followed by a read: the buffered chunk line passes the length re-check or is
+   completed by the bytes consumed after it *)
 Fixpoint rboundaries_ok (cfg : rcfg) (s : rst) (segs : list bytes) (a : racc) : bool :=
   match segs with
   | [] => true
@@ -578,7 +527,7 @@ Fixpoint rboundaries_ok (cfg : rcfg) (s : rst) (segs : list bytes) (a : racc) : 
     | (s', a', OOk _) =>
       match segs' with
       | [] => true
-      | _ => rtail_ok (c_lim cfg) s' && rresume_st s' (concat (rconsumed cfg s' segs' a'))
+      | _ => rrecheck_ok (c_lim cfg) s' (concat (rconsumed cfg s' segs' a'))
              && rboundaries_ok cfg s' segs' a'
       end
     | _ => true
@@ -618,12 +567,12 @@ Proof.
   - rewrite rconsumed_cons. cbn [rboundaries_ok] in Hb. rewrite rrun_segs_cons.
     destruct (rfeed cfg s d acc) as [[s1 a1] r1] eqn:E1.
     destruct r1 as [l1|]; try (cbn [concat]; rewrite app_nil_r, rrun_segs_single, E1; reflexivity).
-    apply andb_true_iff in Hb as [Hb Hb2]. apply andb_true_iff in Hb as [Hok Hsafe].
+    apply andb_true_iff in Hb as [Hok Hb2].
     pose proof (rfeed_wf _ _ _ _ _ _ _ Hw E1) as Hw1.
     rewrite (IH cfg s1 e a1 (lo ++ l1) Hw1 Hb2).
     rewrite concat_cons, !rrun_segs_single.
     rewrite <- rlift_lift. apply robs_lift. symmetry.
-    exact (rfeed_split cfg s d _ acc s1 a1 l1 Hw E1 Hok Hsafe).
+    exact (rfeed_split cfg s d _ acc s1 a1 l1 Hw E1 Hok).
 Qed.
 
 (* the segmented run - normal or rejected - is observably (same exception class, same messages with
